@@ -119,7 +119,7 @@ def run(ctx: Ctx):
             nontrivial=lambda c: len(c["array"]["shape"]) >= 2,
         )
     ctx.trust("numpy transpose/reshape row-major semantics", "numpy.lib.array_utils.normalize_axis_tuple", "z3 / cvc5")
-    return "other", ("Mixed: label-offset injectivity and axis bookkeeping obligations proved on the real source; slice independence of the whole call is a bounded stand-in. " + note)
+    return "other", ("Mixed: label-offset obligations (offset_labels, ravel) proved on the real source; axis bookkeeping and slice independence of the whole call are bounded stand-ins. " + note)
 
 
 def _case_of(payload):
